@@ -62,7 +62,7 @@ func (c Command) ValidateType(data []byte) error {
 
 // IsOfType will check if the supplied string starts with the given command type
 func (c Command) IsOfType(data []byte) bool {
-	if data == nil || len(data) < 0 {
+	if len(data) == 0 {
 		return false
 	}
 	if data[0] == c.Code {
